@@ -10,6 +10,8 @@ PREDICATES = {
     # a Prepeptide on the frame-shifted gene of the 'codonstart' layout
     "C10-F1": lambda case, clause: case.get("layout") == "codonstart" and "prepeptide" in case.get("extras", ())
     and clause in ("genbank-description-differs", "genbank-not-a-fixed-point", "json-description-differs", "json-not-a-fixed-point"),
+    # free-text qualifier values longer than a GenBank line without a space to wrap at
+    "C10-F2": lambda case, clause: case.get("sideload") == "unbreakable-values" and clause == "genbank-description-differs",
     # a Prepeptide on a gene that a sideloaded region boundary cuts
     "C12-F1": lambda case, clause: "prepeptide" in case.get("extras", ()) and clause == "region-file-not-loadable"
     and case.get("sideload") in ("two-subs", "origin-sub", "origin-subs"),
@@ -20,6 +22,12 @@ prop = fid.split("-")[0]
 pred = PREDICATES[fid]
 root = os.path.dirname(os.path.dirname(os.path.abspath(__file__)))
 keep, other = set(), []
+elsewhere = set()
+for path in os.listdir(os.path.join(root, "known")):
+    if path.startswith(prop + "-") and not path.startswith(fid + "."):
+        for line in gzip.open(os.path.join(root, "known", path), "rt", encoding="utf-8"):
+            key, _, clause = line.rstrip("\n").rpartition("\t")
+            elsewhere.add((key, clause))
 for tier in ("quick", "thorough"):
     with tempfile.NamedTemporaryFile(suffix=".txt", delete=False) as tmp:
         path = tmp.name
@@ -30,7 +38,7 @@ for tier in ("quick", "thorough"):
             continue
         if pred(json.loads(key), clause):
             keep.add((key, clause))
-        else:
+        elif (key, clause) not in elsewhere:
             other.append((tier, key, clause))
     os.unlink(path)
 subprocess.run(["git", "-C", root, "checkout", "--", "evidence"], check=False)
